@@ -53,6 +53,9 @@ pub struct PuppetSpec {
     pub finale: Finale,
     pub reply: Vec<Reply>,
     pub reply_default: Reply,
+    /// NOT conformant: keeps acting after it was terminated (generated for C20's differential only)
+    #[serde(default)]
+    pub zombie: bool,
 }
 
 impl Default for PuppetSpec {
@@ -64,6 +67,7 @@ impl Default for PuppetSpec {
             finale: Finale::End,
             reply: vec![],
             reply_default: Reply::Ignore,
+            zombie: false,
         }
     }
 }
@@ -91,11 +95,14 @@ pub struct SinkSpec {
     /// C15 only: the sink keeps pulling after it has received Terminate (from_iter must ignore that)
     #[serde(default)]
     pub pull_after_end: bool,
+    /// NOT conformant: uses its talkback regardless of terminations (generated for C20's differential only)
+    #[serde(default)]
+    pub rogue: bool,
 }
 
 impl Default for SinkSpec {
     fn default() -> Self {
-        SinkSpec { react: vec![], react_default: React::Nothing, credit: false, pull_after_end: false }
+        SinkSpec { react: vec![], react_default: React::Nothing, credit: false, pull_after_end: false, rogue: false }
     }
 }
 
@@ -185,6 +192,9 @@ pub enum Profile {
     PullCount,
     /// from_iter directly under a probe (n = 255 means an unbounded iterator)
     FromIterDirect,
+    /// like AnySingle / Composed but some peers break the protocol (zombie sources, rogue sinks);
+    /// only C20's cross-build differential uses it (its oracle does not depend on conformance)
+    Rogue,
     /// share over one puppet that may greet late (used for C01 only: on the unchanged tree a sink that
     /// pulls before the upstream has greeted makes share panic, which is outside C17's quantifier)
     LateShare,
@@ -321,7 +331,7 @@ impl<'a, 'b> Gen<'a, 'b> {
             let reply_default = d.pick(&[Reply::Sync, Reply::Deferred]);
             let n = d.below(5);
             let reply = (0..n).map(|_| d.pick(&[Reply::Sync, Reply::Deferred])).collect();
-            return PuppetSpec { late: false, burst: vec![], max_items, finale, reply, reply_default };
+            return PuppetSpec { late: false, burst: vec![], max_items, finale, reply, reply_default, zombie: false };
         }
         let style = d.below(4);
         let late = late_ok && d.below(3) == 2;
@@ -334,7 +344,7 @@ impl<'a, 'b> Gen<'a, 'b> {
                 let nb = d.below(4);
                 let burst =
                     (0..nb).map(|_| d.pick(&[PAct::Emit, PAct::Emit, PAct::End, PAct::Error])).collect();
-                PuppetSpec { late, burst, max_items, finale, reply: vec![], reply_default: Reply::Ignore }
+                PuppetSpec { late, burst, max_items, finale, reply: vec![], reply_default: Reply::Ignore, zombie: false }
             }
             1 => PuppetSpec {
                 late,
@@ -343,8 +353,9 @@ impl<'a, 'b> Gen<'a, 'b> {
                 finale,
                 reply: vec![],
                 reply_default: fix(Reply::Sync),
+                zombie: false,
             },
-            2 => PuppetSpec { late, burst: vec![], max_items, finale, reply: vec![], reply_default: Reply::Deferred },
+            2 => PuppetSpec { late, burst: vec![], max_items, finale, reply: vec![], reply_default: Reply::Deferred, zombie: false },
             _ => {
                 let nb = d.below(3);
                 let burst =
@@ -353,7 +364,7 @@ impl<'a, 'b> Gen<'a, 'b> {
                 let reply =
                     (0..n).map(|_| fix(d.pick(&[Reply::Ignore, Reply::Sync, Reply::Deferred]))).collect();
                 let reply_default = fix(d.pick(&[Reply::Ignore, Reply::Sync, Reply::Deferred]));
-                PuppetSpec { late, burst, max_items, finale, reply, reply_default }
+                PuppetSpec { late, burst, max_items, finale, reply, reply_default, zombie: false }
             }
         }
     }
@@ -366,12 +377,12 @@ impl<'a, 'b> Gen<'a, 'b> {
             let react = (0..n)
                 .map(|_| d.pick(&[React::Pull, React::Nothing, React::Pull, React::Terminate, React::Error]))
                 .collect();
-            return SinkSpec { react, react_default, credit: true, pull_after_end: false };
+            return SinkSpec { react, react_default, credit: true, pull_after_end: false, rogue: false };
         }
         let style = d.below(4);
         match style {
             0 => SinkSpec::default(),
-            1 => SinkSpec { react: vec![], react_default: React::Pull, credit: false, pull_after_end: false },
+            1 => SinkSpec { react: vec![], react_default: React::Pull, credit: false, pull_after_end: false, rogue: false },
             2 => {
                 // passive (or puller) that disposes at one position
                 let base = d.pick(&[React::Nothing, React::Pull]);
@@ -379,7 +390,7 @@ impl<'a, 'b> Gen<'a, 'b> {
                 let t = d.pick(&[React::Terminate, React::Error, React::PullTerminate, React::PullError]);
                 let mut react = vec![base; k];
                 react.push(t);
-                SinkSpec { react, react_default: base, credit: false, pull_after_end: false }
+                SinkSpec { react, react_default: base, credit: false, pull_after_end: false, rogue: false }
             }
             _ => {
                 let n = d.below(8);
@@ -404,7 +415,7 @@ impl<'a, 'b> Gen<'a, 'b> {
                     }
                 }
                 let react_default = d.pick(&[React::Nothing, React::Pull]);
-                SinkSpec { react, react_default, credit: false, pull_after_end: false }
+                SinkSpec { react, react_default, credit: false, pull_after_end: false, rogue: false }
             }
         }
     }
@@ -497,6 +508,16 @@ pub fn decode(profile: Profile, bytes: &[u8], max_steps: usize) -> Scenario {
                 g.op(ALL_OPS[k - 1], depth, false)
             }
         }
+        Profile::Rogue => {
+            let depth = g.d.below(3);
+            if depth == 0 {
+                let op = ALL_OPS[g.d.below(ALL_OPS.len())];
+                g.op(op, 0, true)
+            } else {
+                let op = ALL_OPS[g.d.below(ALL_OPS.len())];
+                g.op(op, depth, true)
+            }
+        }
         Profile::LateAny => {
             g.late_everywhere = true;
             const OPS: [Op; 7] = [Op::Concat, Op::Map, Op::Filter, Op::Scan, Op::Take, Op::Skip, Op::Flatten];
@@ -547,6 +568,15 @@ pub fn decode(profile: Profile, bytes: &[u8], max_steps: usize) -> Scenario {
     let mut sinks: Vec<SinkSpec> = (0..n_sinks).map(|_| g.sink_spec(pullcount, cross)).collect();
     if profile == Profile::FromIterDirect {
         sinks[0].pull_after_end = g.d.below(3) == 2;
+    }
+    let mut puppets = puppets;
+    if profile == Profile::Rogue {
+        for p in puppets.iter_mut() {
+            p.zombie = g.d.below(2) == 1;
+        }
+        for s in sinks.iter_mut() {
+            s.rogue = g.d.below(2) == 1;
+        }
     }
     // schedule
     let mut schedule = vec![];
@@ -748,7 +778,7 @@ pub fn shrink_candidates(sc: &Scenario) -> Vec<Scenario> {
                 out.push(c);
             }
         };
-        push(SinkSpec { react: vec![], react_default: React::Nothing, credit: s.credit, pull_after_end: s.pull_after_end });
+        push(SinkSpec { react: vec![], react_default: React::Nothing, credit: s.credit, pull_after_end: s.pull_after_end, rogue: s.rogue });
         push(SinkSpec { react: vec![], ..s.clone() });
         push(SinkSpec { react_default: React::Nothing, ..s.clone() });
         for k in 0..s.react.len() {
